@@ -17,6 +17,7 @@ RULE = (
     "data transform up to the step bound x 4 terminations in all 10 positions, variants none/default/v1, empty and "
     "repeated blocks. Each sentence is printed, parsed, regenerated with as_text(), re-tokenised by the independent "
     "tokenizer and re-parsed. non-trivial = the sentence has at least one statement"
+    '. Added: non-ASCII and line-boundary characters in literals, the file entry point, reading the dictionary view before regenerating, near-valid texts (rejected or regenerated exactly). '
 )
 ASSUMPTIONS = [
     "the pseudo-statement `# dns_resolver \"...\";` is output-only (read back as a comment) and not generated",
